@@ -1,1 +1,43 @@
 //! Code shared by the per-property binaries of this crate (src/bin/cNN.rs).
+pub mod diag;
+pub mod engine;
+pub mod irtext;
+pub mod pool;
+pub mod worker;
+
+use std::cell::RefCell;
+
+thread_local! {
+    static LAST_PANIC_MSG: RefCell<String> = const { RefCell::new(String::new()) };
+}
+
+/// Panic hook that records message + location in thread-locals instead of printing.
+pub fn install_panic_hook() {
+    std::panic::set_hook(Box::new(|info| {
+        let loc = info
+            .location()
+            .map(|l| format!("{}:{}", l.file(), l.line()))
+            .unwrap_or_default();
+        let msg = if let Some(s) = info.payload().downcast_ref::<String>() {
+            s.clone()
+        } else if let Some(s) = info.payload().downcast_ref::<&str>() {
+            s.to_string()
+        } else {
+            "<non-string panic>".to_string()
+        };
+        vhcore::LAST_PANIC_LOC.with(|c| *c.borrow_mut() = Some(loc));
+        LAST_PANIC_MSG.with(|c| *c.borrow_mut() = msg);
+    }));
+}
+
+pub fn take_panic_msg() -> String {
+    LAST_PANIC_MSG.with(|c| std::mem::take(&mut *c.borrow_mut()))
+}
+
+/// Entry point shared by all vh-comp binaries for the internal `worker <scratch-root>` command.
+pub fn maybe_serve_worker(a: &vhcore::Args) {
+    if a.cmd == "worker" {
+        let root = a.rest.first().cloned().unwrap_or_else(|| "/verif/work/worker".into());
+        std::process::exit(worker::serve(std::path::PathBuf::from(root)));
+    }
+}
